@@ -22,10 +22,11 @@ def Unless(c, b): return {'t': 'if', 'form': 'unless', 'cs': [{'c': c, 'b': []}]
 def Call(c): return {'t': 'if', 'form': 'call', 'cs': [{'c': c, 'b': []}], 'he': False, 'e': []}
 def Let(bs, b): return {'t': 'let', 'bs': [{'n': n, 'c': c} for n, c in bs], 'b': b}
 def With(c, b, mapping=False, only=False): return {'t': 'with', 'c': c, 'b': b, 'mapping': mapping, 'only': only}
-def In(c, b, e=None, mapping=False, nopush=False, reverse=False, pre=False, sort=None, prefix='p', start=0, size=0):
+def In(c, b, e=None, mapping=False, nopush=False, reverse=False, pre=False, sort=None, prefix='p', start=0, size=0, prepfail=None):
     return {'t': 'in', 'c': c, 'b': b, 'he': e is not None, 'e': e or [], 'mapping': mapping,
             'nopush': nopush, 'reverse': reverse, 'pre': bool(pre), 'prefix': prefix,
-            'sorted': sort is not None, 'sortkey': sort or '', 'bs': (start or 1) if size else 0, 'bz': size}
+            'sorted': sort is not None, 'sortkey': sort or '', 'bs': (start or 1) if size else 0, 'bz': size,
+            'prepfail': bool(prepfail), 'pf': prepfail or '', 'pfcls': 'KeyError' if prepfail == 'size' else 'NameError'}
 def Try(b, hs, e=None): return {'t': 'try', 'b': b, 'hs': [{'names': list(n), 'b': hb} for n, hb in hs], 'he': e is not None, 'e': e or []}
 def TryF(b, f): return {'t': 'tryf', 'b': b, 'f': f}
 def Raise(cls, b, x=False): return {'t': 'raise', 'cls': cls, 'b': b, 'x': x}
@@ -107,6 +108,7 @@ def compile_prog(prog):
             n['b'] = compile_prog(n['b'])
             n['e'] = compile_prog(n['e'])
             n.pop('prefix', None)
+            n.pop('pf', None)
         elif t == 'try':
             n['b'] = compile_prog(n['b'])
             n['e'] = compile_prog(n['e'])
@@ -236,6 +238,8 @@ def pr(prog, sty='dtml'):
                 a += ' sort=' + (n['sortkey'] or 'sequence-item')
             if n.get('bz'):
                 a += ' start=%d size=%d' % (n['bs'], n['bz'])
+            if n.get('pf'):
+                a += ' ' + {'sort_expr': 'sort_expr="nope"', 'reverse_expr': 'reverse_expr="nope"', 'size': 'size=nope'}[n['pf']]
             out.append(o('in', a) + pr(n['b'], sty) + ((o('else') + pr(n['e'], sty)) if n['he'] else '') + c('in'))
         elif t == 'try':
             s = o('try') + pr(n['b'], sty)
